@@ -13,7 +13,20 @@ MANIFEST = {
 }
 
 
-def vjob(name, td, te, fam, timeout, unwind=10, mem=10):
+def vjob(name, td, te, fam, timeout, unwind=10, mem=10, shape=None):
+    j = _vjob(name, td, te, fam, timeout, unwind, mem)
+    if shape is not None:
+        nslots = (1 << (td + 1)) - 1
+        j.defines += ["TL_SHAPE=%d" % shape, "TL_NRECS=" + ",".join([str(te)] * nslots)]
+        j.desc = ("pfx_table_validate(_r) on an IPv%d trie of FIXED shape (slot mask %d of the depth-%d template: a chain of three nodes, "
+                  "%d record(s) each; every prefix, length, AS, max length symbolic, Inv assumed) -- the walk has to step over a node "
+                  "between two covering nodes; query AS/prefix/length/reasons symbolic; RFC 6811 oracle by full traversal"
+                  % (fam, shape, td, te))
+        j.bounds = dict(j.bounds, shape_mask=shape)
+    return j
+
+
+def _vjob(name, td, te, fam, timeout, unwind=10, mem=10):
     return core.Job(
         name=name, harness="pfx_validate.c", entry="harness_validate",
         defines=["TD=%d" % td, "TE=%d" % te, "FAM=%d" % fam],
@@ -26,6 +39,12 @@ def vjob(name, td, te, fam, timeout, unwind=10, mem=10):
 
 def jobs(tier):
     J = [vjob("validate_v4_d1", 1, 2, 4, 900), vjob("validate_v6_d1", 1, 2, 6, 900)]
+    # three-node chains (root -> child -> grandchild): the shortest shape in which the walk from one covering node to the
+    # next has to pass a node that does not cover the query
+    for nm, mask in (("LL", 11), ("LR", 19), ("RL", 37), ("RR", 69)):
+        J.append(vjob("validate_v4_chain%s" % nm, 2, 1, 4, 1500, unwind=17, shape=mask))
+    J.append(vjob("validate_v6_chainLR", 2, 1, 6, 1500, unwind=17, shape=19))
+    J.append(vjob("validate_v6_chainRL", 2, 1, 6, 1500, unwind=17, shape=37))
     if tier == "thorough":
         J += [vjob("validate_v4_d2", 2, 2, 4, 3000, unwind=12, mem=20), vjob("validate_v6_d2", 2, 1, 6, 3000, unwind=12, mem=20)]
     return J
